@@ -15,7 +15,9 @@ EXPLANATION = (
     "access in run_in_place); in the binary element-wise family run_in_place's out-of-place fallback calls the same kernel "
     "function as run and the in-place kernel is guarded by can_run_binary_op_in_place; the delegating wrapper TransformInputs "
     "applies the same transform loop in run and run_in_place, drops in-place indices that have a transform, and does not forward "
-    "is_commutative. Decides the contract between operator and executor, not bit-equality of results.")
+    "is_commutative; (storage-order) TensorBase::into_non_contiguous_data, which returns the buffer in storage order, is called only under "
+    "is_contiguous(), on a Contiguous<..> value or by a buffer-pool recycler - never by a kernel that re-wraps the buffer with the logical shape "
+    "(an owned value reaching run_in_place may be non-contiguous). Decides the contract between operator and executor, not bit-equality of results.")
 ASSUMPTIONS = ["operators' numeric kernels are not evaluated"]
 
 INPUT_IDX = ('re:^rten::operator::InputList::<.a>::(get|get_as|require|require_as|get_mut)$',)
@@ -28,6 +30,7 @@ def optable():
 def run(ctx):
     fb = ctx.fb()
     T = optable()
+    storage_order(ctx, fb, 'C13.storage-order')
     ops = opsum.all_ops(fb)
     ctx.floor('C13.pairing', 'impl Operator', len(ops), 160)
     n_inplace = 0
@@ -223,3 +226,32 @@ def run(ctx):
                     gs = [g for g in f.guards(bb) if g.truth() is False]
                     ok = bool(gs) and bool(gets)
         ctx.inst(R, 'in-place-set-filtered', ok, 'inner in_place_inputs is returned only on the negative side of the any-transform-touches-an-in-place-input test (BitSet::get calls: %d)' % len(gets), f.loc())
+
+
+def storage_order(ctx, fb, R):
+    """TensorBase::into_non_contiguous_data hands out the buffer in storage order, which equals logical order only for a
+    contiguous layout.  An owned value that reaches run_in_place may be non-contiguous (permuted owned input, in-place Slice),
+    so a kernel that takes the raw buffer and re-wraps it with the logical shape returns different elements from the copying
+    path.  Every call site must be one of: under an is_contiguous() test, on a Contiguous<..> wrapper, or a buffer-pool
+    recycler (contents dead)."""
+    n = 0
+    for f in fb.fns():
+        if not f.has_mir() or '::tests' in f.path or f.crate.name not in ('rten', 'rten_tensor', 'rten_generate', 'rten_imageproc', 'rten_text', 'rten_simd', 'rten_vecmath', 'rten_gemm', 'rten_base'):
+            continue
+        for c in f.calls():
+            if not re.search(r'TensorBase::<.*>::into_non_contiguous_data$', c.callee or ''):
+                continue
+            n += 1
+            short = f.path
+            why = None
+            if re.search(r'^rten_tensor::contiguous::Contiguous::<', f.path):
+                why = 'receiver is the inner tensor of a Contiguous<..> wrapper, whose constructors establish contiguity'
+            elif re.search(r' as rten::buffer_pool::ExtractBuffer>::extract_buffer$', f.path):
+                why = 'buffer recycling: only the allocation is kept, the element order is dead'
+            else:
+                if guards_call(f, c.bb, ('re:::is_contiguous$',), True):
+                    why = 'reached only when is_contiguous() returned true'
+            k = 'raw-buffer:' + re.sub(r"<'?\w+>", '', short)
+            ctx.inst(R, k, why is not None, why or
+                     'into_non_contiguous_data() returns the elements in storage order; here it is neither under an is_contiguous() test, nor on a Contiguous<..> value, nor a buffer-pool recycler: for a non-contiguous owned tensor (permuted input, in-place Slice of an inner dimension) the buffer does not match the logical shape, so the in-place path returns other elements than the copying path (or panics on the length)', c.loc())
+    ctx.floor(R, 'into_non_contiguous_data call sites', n, 3)
